@@ -1,5 +1,6 @@
 """Registry: property id -> check function."""
 import json
+import os
 
 import time
 
@@ -241,7 +242,17 @@ def witness_matrix():
                                 [{"op": "pollmelt", "q": "lq1", "status": ["succeeded"]}],
     }
     for name, ops in paths.items():
-        hs.append({"fee": 0, "mpp": False, "policy": "min1", "probe": "passive", "ops": fund + look + ops + look + [{"op": "restart"}] + look})
+        for http in (False, True):
+            hs.append({"fee": 0, "mpp": False, "policy": "min1", "probe": "passive", "http": http, "ops": fund + look + ops + look + [{"op": "restart"}] + look})
+    # the same restore / state-check request before and after the outputs and proofs it names change state: a swap refused for
+    # too many outputs leaves them unsigned, the corrected swap signs the very same blinded messages
+    for http in (False, True):
+        # only outputs that exist by then are named: a placeholder for an unknown id would make every request body differ
+        ask = [{"op": "restore", "bs": ["b1", "b2", "b3", "b4", "b5"]}, {"op": "checkstate", "ys": ["b1", "b2", "b3", "b4", "b5"]}]
+        ops = fund + [{"op": "swap", "ins": [{"p": "b1"}], "outs": [{"amt": 8}, {"amt": 1}]}] + ask + \
+            [{"op": "swap", "ins": [{"p": "b1"}, {"p": "b3"}], "outs": [{"amt": 8, "b": "b4"}, {"amt": 1, "b": "b5"}]}] + ask + ask + \
+            [{"op": "mintquote", "amt": 4}, {"op": "settle", "q": "mq2"}, {"op": "mint", "q": "mq2", "outs": [{"amt": 4}]}] + ask + [{"op": "restart"}] + ask
+        hs.append({"fee": 0, "mpp": False, "policy": "min1", "probe": "passive", "http": http, "ops": ops})
     return hs
 
 
@@ -347,9 +358,33 @@ def c20():
 
 
 def replay(prop, path):
+    """./check <id> --replay <path>: re-run what a VIOLATION line pointed at, on the current tree.  Exit 1 (with VIOLATION lines)
+    if the finding is still there, 0 if it is gone.  Evidence files are not touched."""
     with open(path) as f:
         rp = json.load(f)
-    if rp.get("kind") == "minthist":
-        return minthist.replay(prop, rp)
-    print("unknown replay kind")
-    return 2
+    os.environ["VERIF_REPLAY"] = "1"
+    if "seed" in rp:
+        os.environ["VERIF_SEED"] = str(rp["seed"])
+    kind = rp.get("kind")
+    if kind == "minthist" and rp.get("history"):
+        h = dict(rp["history"])
+        h["id"] = 1
+        _, v = minthist.check(prop, given=[h], collect=True)
+        return 1 if v else 0
+    if kind == "wallethist" and rp.get("history"):
+        h = dict(rp["history"])
+        h["id"] = 1
+        _, v = wallethist.check(prop, given=[h], collect=True, with_directed=False)
+        return 1 if v else 0
+    if kind == "conc" and rp.get("scenario"):
+        _, v, _ = conc.check(prop, [rp["scenario"]])
+        return 1 if v else 0
+    if kind == "crash" and rp.get("scenario"):
+        return crash.check(prop, only=[rp["scenario"]["name"]])
+    if kind == "fault-http" and rp.get("scenario"):
+        _, v = crash.fault_http(prop, only=[rp["scenario"]["name"]])
+        return 1 if v else 0
+    # decision tables, reference evaluation, send cases: the finding is a class of cases of a finite table; the whole
+    # table is cheap enough to run again
+    fn = CHECKS.get(prop)
+    return fn() if fn else 2
